@@ -310,8 +310,9 @@ Definition dispatch (cf : cfg) (cs : list conn) (s : N) (gone : bool) (d : wmsg)
       match find_conn cs r with
       | None => (reply s gone (OErr ENoDest tok), led_close led F WUndeliverable)
       | Some rc =>
-          if policy_denies cf d F then (reply s gone (OErr EAccessDenied tok), led_close led F WUndeliverable)
-          else if has_fds F && negb (c_neg rc) then (reply s gone (OErr ENotSupported tok), led_close led F WUndeliverable)
+          (* the capability test comes before the security policy (bus_dispatch_matches) *)
+          if has_fds F && negb (c_neg rc) then (reply s gone (OErr ENotSupported tok), led_close led F WUndeliverable)
+          else if policy_denies cf d F then (reply s gone (OErr EAccessDenied tok), led_close led F WUndeliverable)
           else if reachable s gone r then ([(r, OMsg s tok F)], led_close (led_deliv led r s d F) F WDelivered)
           else ([], led_close led F WUndeliverable)
       end
